@@ -160,7 +160,7 @@ theorem decodeLevels_of_runs {w : Nat} (hw : w ≤ 32) {bs : List UInt8} {xs : L
     (n : Nat) (hn : n ≤ xs.length) (hsmall : ∀ v ∈ xs.take n, v < 32768) :
     decodeLevels w bs n = (xs.take n).map Int.ofNat := by
   unfold decodeLevels
-  rw [levelsLoop_eq_preF58 hw h _ n (Nat.lt_succ_self _) hn]
+  rw [if_pos (show w ≤ maxWidth from hw), levelsLoop_eq_preF58 hw h _ n (Nat.lt_succ_self _) hn]
   exact decodeLevelsPreF58_of_runs hw h n hn hsmall
 
 end Carquet.Proofs.RleLevels
